@@ -278,6 +278,15 @@ def epoch_step(ctx, thorough=False):
     for cfg in cfgs:
         ctx.tlc_must_hold("bft", "MC_BFTEpoch", cfg=cfg, timeout=7200 if thorough else 1200, heap="8g",
                           label="epoch-level FinalitySafety " + cfg)
+    if thorough:
+        # what the vote rule alone does NOT give: with honest validators free to vote on branches worse than their own
+        # previous block (no fork choice), three-round branches admit conflicting finality.  The configuration must
+        # keep violating FinalitySafety - it documents that safety leans on "a node's best block never gets worse".
+        r = ctx.tlc("bft", "MC_BFTEpoch", cfg="MC_BFTEpoch_y3free.cfg", timeout=3600, heap="8g", count=False,
+                    label="vote rule without fork choice (must violate)")
+        if r.invariant != "FinalitySafety":
+            raise Infra("MC_BFTEpoch_y3free.cfg no longer violates FinalitySafety (%s)" % (r.invariant or r.error or "no violation"))
+        ctx.cov["epoch_model_needs_monotone_best"] = True
     sched = ctx.tmp("epoch-sched")
     variants = ["castq", "norule", "dropcasts", "finq", "geq"] if thorough else ["castq", "norule", "dropcasts"]
     for v in variants:
